@@ -15,6 +15,7 @@ structure Case where
   pre     : List String := []
   threads : List (List String) := []      -- op texts per thread
   sched   : List Nat := []
+  stepsnap : Bool := false                -- `opt stepsnap`: print the structure before every decision
 
 def parseCOp (s : String) : Option (COp DKey DVal) :=
   match (s.splitOn " ").filter (· ≠ "") with
@@ -57,15 +58,58 @@ def applyPre (P : Params DKey) (t : Tree DKey DVal) (l : String) : Option (Tree 
     match t.update P k f with | .ok (t', _) => some t' | .error _ => none
   | _ => none
 
+/-- The structure the implementation exhibits in configuration `c` (what an unsynchronised
+    snapshot of the Go tree shows while every goroutine is parked). It is `c.tree` except for
+    threads parked INSIDE an Update callback (`upd k y…`, `Park.yielded (.upCallback …)`) whose
+    key is absent and not beyond the leaf's last key: `Update` has then already made room in the
+    leaf it holds and stored the key (`ln.runts = append(..); ln.values = append(.., nil);
+    copy(..); copy(..); ln.runts[index] = key`), and only the store `ln.values[index] =
+    callback(nil, false)` is still to come, so the slot shows the shifted neighbour's value.
+    The model (`Conc.upLeaf`) writes the whole leaf when the callback returns; the leaf is held
+    by the thread throughout, so no operation can observe the difference. In the append path
+    (`key` beyond the last key, or empty leaf) and the replace path the code calls the callback
+    before it writes, and the view is the identity. -/
+def implTree (c : Config DKey DVal) : Tree DKey DVal :=
+  c.threads.foldl (fun tr th =>
+    match th.park with
+    | .yielded (.upCallback key _ n none) =>
+      match (tr.find n).bind leafOf? with
+      | none => tr
+      | some l =>
+        let appendPath : Bool := match l.keys.getLast? with
+          | none => true
+          | some last => c.P.lt last key
+        if appendPath then tr else
+        let index := searchGE c.P.lt key l.keys
+        match c.P.pad (some key) with
+        | none => tr
+        | some pad =>
+          putLeaf tr { l with keys := insertIdiom pad l.keys index key,
+                              vals := goCopy (l.vals ++ [none]) (index + 1) index }
+    | _ => tr) c.tree
+
 /-- `Config.run`, also counting the configurations passed through and those among them in
-    which some waiting thread is not ranked (`rankedB`, the executable `Ranked levelRank`) -/
-def runChecked (c : Config DKey DVal) (states bad : Nat) : List Nat → Config DKey DVal × Option Nat × Nat × Nat
-  | [] => (c, none, states + 1, if rankedB c then bad else bad + 1)
+    which some waiting thread is not ranked (`rankedB`, the executable `Ranked levelRank`).
+    With `snap` it also returns, for every step taken, the rendering of the tree of the
+    configuration in which that step's decision is taken (the tree BEFORE the step), in order. -/
+def runChecked (snap : Bool) (c : Config DKey DVal) (states bad : Nat) (snaps : List String) :
+    List Nat → Config DKey DVal × Option Nat × Nat × Nat × List String
+  | [] => (c, none, states + 1, (if rankedB c then bad else bad + 1), snaps.reverse)
   | t :: ts =>
     let bad := if rankedB c then bad else bad + 1
     match c.step t with
-    | none => (c, some t, states + 1, bad)
-    | some c' => runChecked c' (states + 1) bad ts
+    | none => (c, some t, states + 1, bad, snaps.reverse)
+    | some c' => runChecked snap c' (states + 1) bad (if snap then showTree (implTree c) :: snaps else snaps) ts
+
+/-- puts `s <tree>` (the i-th of `snaps`) right before the i-th `d` line -/
+def interleaveSnaps (acc : List String) : List String → List String → List String
+  | [], _ => acc.reverse
+  | l :: ls, snaps =>
+    if l.startsWith "d " then
+      match snaps with
+      | sn :: rest => interleaveSnaps (l :: ("s " ++ sn) :: acc) ls rest
+      | [] => interleaveSnaps (l :: acc) ls []
+    else interleaveSnaps (l :: acc) ls snaps
 
 def runCase (c : Case) : List String :=
   match paramsFor c.ty c.order.toNat with
@@ -80,7 +124,7 @@ def runCase (c : Case) : List String :=
       | none => ["error program"]
       | some progs =>
         let cfg := Config.init P tree progs
-        let (cfg', stuck, nstates, nbad) := runChecked cfg 0 0 c.sched
+        let (cfg', stuck, nstates, nbad, snaps) := runChecked c.stepsnap cfg 0 0 [] c.sched
         let evs := cfg'.log.reverse
         -- canonical mutex names by first acquisition
         let names : List Lk := evs.foldl (fun acc e => match e with
@@ -107,6 +151,7 @@ def runCase (c : Case) : List String :=
               (if cfg'.enabledSet.isEmpty then ["deadlock"] else ["incomplete " ++ showEnabled cfg'.enabledSet])
             else if cfg'.dead then []
             else ["final " ++ showTree cfg'.tree]
+        let lines := if c.stepsnap then interleaveSnaps [] lines snaps else lines
         lines ++ ["# ranked " ++ toString nstates ++ " " ++ toString nbad] ++ tail
 
 partial def loop (h : IO.FS.Stream) (out : IO.FS.Stream) (cur : Case) (n : Nat) : IO Unit := do
@@ -116,6 +161,8 @@ partial def loop (h : IO.FS.Stream) (out : IO.FS.Stream) (cur : Case) (n : Nat) 
   let toks := (l.splitOn " ").filter (· ≠ "")
   match toks with
   | "cbegin" :: ty :: ord :: _ => loop h out { ty := ty, order := (ord.toInt?).getD 0 } n
+  | "opt" :: rest =>
+    loop h out { cur with stepsnap := (cur.stepsnap || rest.contains "stepsnap") && !rest.contains "nostepsnap" } n
   | "pre" :: rest => loop h out { cur with pre := cur.pre ++ [" ".intercalate rest] } n
   | "thread" :: _ :: rest =>
     let ops := ((" ".intercalate rest).splitOn ";").map (fun s => s.trimAscii.toString) |>.filter (· ≠ "")
